@@ -211,6 +211,18 @@ pub mod prelude {
     pub struct Wrapper<T>(pub T);
     impl<T: Key> Key for Wrapper<T> { fn key(&self) -> i64 { self.0.key() } }
 
+    /// Generic wrappers that are *named like the generated types* (`other::Ty<T>` inside `struct Ty<T>`): a field type
+    /// may spell the deriving type's own identifier without being that type.
+    pub mod homonyms {
+        use super::Key;
+        macro_rules! homonym { ($($n:ident),*) => { $(
+            #[derive(Debug, Clone, Copy, PartialEq, Eq, PartialOrd, Ord, Hash, Default)]
+            pub struct $n<T>(pub T);
+            impl<T: Key> Key for $n<T> { fn key(&self) -> i64 { self.0.key() } }
+        )* } }
+        homonym!(Ty, Alpha, Node, Item9);
+    }
+
     // ---------------------------------------------------------------- impls!(Type: Bound) -> bool, never a compile error
     #[macro_export]
     macro_rules! impls {
